@@ -257,9 +257,68 @@ def directed_leaf_points(res):
     return pts[:20000]
 
 
+def c17_interleave(res, rng):
+    """the correction functions and the normal CDF called from two threads: call A is pre-empted at every one of its source lines
+    (sys.settrace) by a complete call B with other arguments, from fresh module state; both must return what they return alone"""
+    import sys as _sys, os as _os, importlib
+    prefix = _os.path.realpath(core.REPO) + _os.sep
+    fns = ("v", "w", "vt", "wt", "phi_major")
+    args = [(-1.5, 1e-4), (-9.5, 1e-3), (0.25, 7e-6), (3.0, 1e-2), (-8.2, 1e-5), (0.0, 1e-4), (-2.0, 1e-4)]
+
+    def call(fn, a):
+        f = getattr(wl_common, fn)
+        return f(a[0] - a[1]) if fn == "phi_major" else f(a[0], a[1])
+
+    def traced(fa, aa, at, inner):
+        st = {"n": 0, "b": None, "err": None}
+
+        def tr(frame, event, arg):
+            if not frame.f_code.co_filename.startswith(prefix):
+                return None
+            if event == "line":
+                if at is not None and st["n"] == at:
+                    try:
+                        st["b"] = inner()
+                    except Exception as e:  # noqa: BLE001
+                        st["err"] = e
+                st["n"] += 1
+            return tr
+        old = _sys.gettrace()
+        _sys.settrace(tr)
+        try:
+            out = call(fa, aa)
+        finally:
+            _sys.settrace(old)
+        return out, st
+    try:
+        for fa in fns:
+            for fb in fns:
+                aa, ab = rng.choice(args), rng.choice(args)
+                if aa == ab:
+                    ab = args[(args.index(aa) + 3) % len(args)]
+                importlib.reload(wl_common)
+                sa, st0 = traced(fa, aa, None, None)
+                sb = call(fb, ab)
+                for k_ in range(st0["n"]):
+                    importlib.reload(wl_common)
+                    ra, st = traced(fa, aa, k_, lambda: call(fb, ab))
+                    res.count("leaf_calls_pre_empted_at_a_line")
+                    # afterwards, in the same module state, both again (a value remembered half-way must not survive)
+                    ra2, rb2 = call(fa, aa), call(fb, ab)
+                    if st["err"] is not None or ra != sa or st["b"] != sb or ra2 != sa or rb2 != sb:
+                        res.fail("property", "C17: %s%r pre-empted at its line event %d by %s%r: returns %r / %r (then %r / %r), alone %r / %r%s" % (
+                            fa, aa, k_, fb, ab, ra, st["b"], ra2, rb2, sa, sb, "" if st["err"] is None else " raised " + type(st["err"]).__name__),
+                            dict(type="leaf", x=aa[0], t=aa[1]))
+                        return
+    finally:
+        importlib.reload(wl_common)
+
+
 def c17(res):
     rng = random.Random(res.seed)
     c17_oracle_selfcheck(res, rng)
+    if res.shard == 0:
+        c17_interleave(res, rng)
     pts = sweep_points(res, rng)
     import gentie
     st = gentie.note(res, "v, w, vt, wt")
